@@ -136,7 +136,35 @@ class _H2(_H):
     unroll = 2
 
 
+_nt_fields = None
+
+
+def _namedtuple_subs():
+    """`.field` of a namedtuple defined in the package is `[index]` (field names that belong to exactly one namedtuple)"""
+    global _nt_fields
+    if _nt_fields is None:
+        seen = {}
+        try:
+            for m in reference_repo().modules.values():
+                for n in ast.walk(m.tree):
+                    if isinstance(n, ast.Call) and u(n.func).endswith("namedtuple") and len(n.args) == 2:
+                        try:
+                            names = ast.literal_eval(n.args[1])
+                        except Exception:
+                            continue
+                        if isinstance(names, str):
+                            names = names.replace(",", " ").split()
+                        for i, f in enumerate(names):
+                            seen.setdefault(f, set()).add(i)
+        except Exception:
+            pass
+        _nt_fields = [(re.compile(r"\." + re.escape(f) + r"\b(?!\()"), f"[{next(iter(ix))}]") for f, ix in seen.items() if len(ix) == 1]
+    return _nt_fields
+
+
 def _norm_atom(a, keep_versions=False):
+    for pat, rep in _namedtuple_subs():
+        a = pat.sub(rep, a)
     if a.startswith("raises(") and "->" in a:
         # `raises(<statement text> -> Exc)`: the statement is source text (local names): keep what it calls and the exception
         body, exc = a[len("raises("):].rsplit("->", 1)
@@ -598,7 +626,13 @@ def _stmt_texts(fn):
     return out
 
 
-def rewritten(repo, key):
+def rewritten(repo, key, new_only=False):
+    if new_only:
+        return _rewritten_impl(repo, key) == "new"
+    return bool(_rewritten_impl(repo, key))
+
+
+def _rewritten_impl(repo, key):
     """Was the function an instance key `module:qualname:...` is about re-written wholesale since it was reviewed?
     (>= 16 changed statements, or part of it moved into functions the snapshot does not have.)  Measured on the
     seeded faulty changes (234) and the independent refactorings (176): no faulty change rewrites 16 statements and
@@ -624,7 +658,7 @@ def rewritten(repo, key):
             f = m.functions.get(q) if m else None
             rf = rm.functions.get(q) if rm else None
             if f is not None and rf is None and m is not None and rm is not None:
-                res = True  # a function the snapshot does not have
+                res = "new"  # a function the snapshot does not have
             elif f is not None and rf is not None:
                 if f.new_helpers():
                     res = True
@@ -668,13 +702,29 @@ def compare_tables(ct, rt):
     ref_atoms = {_norm_atom(a) for p in rt for a in p.atoms if not a.startswith("more(")}
     cur_atoms = {_norm_atom(a) for p in ct for a in p.atoms if not a.startswith("more(")}
     def _sk(a):
-        # type tests are compared exactly (what is tested for which class); other conditions by skeleton
-        return a if a.startswith("isinstance(") else _skel(a)
+        # type tests are compared exactly (what is tested for which class); other conditions by skeleton, in which a
+        # literal integer index is kept (x[-1] and x[pos] are different things to look at)
+        if a.startswith("isinstance("):
+            return a
+        return _skel(re.sub(r"\[(-?\d+)\]", r"<\1>", a))
 
     sk_ref = {_sk(a) for a in ref_atoms}
     sk_cur = {_sk(a) for a in cur_atoms}
     gone = sorted(a for a in ref_atoms - cur_atoms if not a.startswith("raises(") and _sk(a) not in sk_cur)
     new = sorted(a for a in cur_atoms - ref_atoms if not a.startswith("raises(") and _sk(a) not in sk_ref)
+    if gone and not new:
+        # a reviewed bounds test is no longer made while the function still indexes what it protected
+        # (`len(tokens) >= 2 and str(tokens[1]) ...` without the length test)
+        texts = " ".join([_norm_atom(a) for p in ct for a in p.atoms] + [_norm_atom(vtext(x)) for p in ct for e in p.effects for x in e[1:] if not isinstance(x, tuple)] + [_norm_atom(vtext(p.result[1])) for p in ct if p.result[1] is not None])
+        for a in gone:
+            m = re.search(r"len\((.+?)\) (GtE|Gt|Lt|LtE|Eq) (\d+)$|^(\d+) (Lt|LtE|Gt|GtE|Eq) len\((.+)\)$", a)
+            if not m:
+                continue
+            obj = m.group(1) or m.group(6)
+            if re.search(re.escape(obj) + r"\[-?\d+\]", texts):
+                findings.append(("condition-dropped", a[:80], None,
+                                 f"the reviewed bounds test `{a[:100]}` is no longer made, but `{obj[:60]}[i]` is still read: what the test guarded now happens for every length"))
+                break
     if gone and new:
         findings.append(("condition-replaced", f"{gone[0]} -> {new[0]}", None,
                          f"the reviewed condition(s) {gone} no longer occur; the function now tests {new} instead (a weaker / stronger / different condition decides the same cases)"))
@@ -985,4 +1035,69 @@ def new_module_state(repo, shorts):
                     except AnalysisError:
                         pass
                     out.append((short, f"@{dn} on {f.qualname}", f, f.node))
+    return out
+
+
+def removed_table_entries(repo, shorts):
+    """Constant tables (module-level or class-level assignments of literal dicts / lists / tuples / sets) of the given
+    modules: entries the reviewed snapshot has and the analysed tree no longer has in the same place (an extension
+    moved to another language, a suffix dropped from a list, a key renamed).  Added entries are extensions and are
+    not reported.  -> [(module, table name, description, lineno)]"""
+    ref = reference_repo()
+    out = []
+
+    def tables(m):
+        res = {}
+        def scan(body, prefix):
+            for st in body:
+                if isinstance(st, ast.ClassDef):
+                    scan(st.body, prefix + st.name + ".")
+                elif isinstance(st, (ast.Assign, ast.AnnAssign)):
+                    tgt = st.targets[0] if isinstance(st, ast.Assign) and len(st.targets) == 1 else getattr(st, "target", None)
+                    if isinstance(tgt, ast.Subscript) and isinstance(tgt.value, ast.Name) and isinstance(tgt.slice, ast.Constant) and st.value is not None:
+                        # TABLE["key"] = [...] at class / module level: one row of a table built row by row
+                        try:
+                            v = ast.literal_eval(st.value)
+                        except Exception:
+                            continue
+                        res[f"{prefix}{tgt.value.id}[{tgt.slice.value!r}]"] = (v if isinstance(v, (dict, list, tuple, set)) else [v], st.lineno)
+                        continue
+                    if isinstance(tgt, ast.Name) and st.value is not None:
+                        try:
+                            v = ast.literal_eval(st.value)
+                        except Exception:
+                            continue
+                        if isinstance(v, (dict, list, tuple, set)) and len(v) >= 2:
+                            res[prefix + tgt.id] = (v, st.lineno)
+        scan(m.tree.body, "")
+        return res
+
+    def flat(v, path=()):
+        if isinstance(v, dict):
+            for k, x in v.items():
+                yield from flat(x, path + (repr(k),))
+        elif isinstance(v, (list, tuple, set)) and all(isinstance(x, (str, int, float, bool)) or x is None for x in v):
+            for x in v:
+                yield path + (repr(x),)
+        elif isinstance(v, (list, tuple)):
+            for i, x in enumerate(v):
+                yield from flat(x, path + (f"#{i}",))
+        else:
+            yield path + (repr(v),)
+
+    for short in shorts:
+        try:
+            m, rm = repo.mod(short), ref.mod(short)
+        except AnalysisError:
+            continue
+        ct, rt = tables(m), tables(rm)
+        for name, (rv, _) in rt.items():
+            if name not in ct:
+                continue
+            cv, line = ct[name]
+            if cv == rv:
+                continue
+            gone = sorted(set(flat(rv)) - set(flat(cv)))
+            for g in gone[:4]:
+                out.append((short, name, " -> ".join(g), line))
     return out
